@@ -433,11 +433,81 @@ def minimal_case(lib, f, wd):
     return None
 
 
+def _drop_entity(sd, victim):
+    """The graph without one entity (its subtypes lose that supertype, expressions lose that operand)."""
+    import copy
+    v = victim.lower()
+
+    def strip(x):
+        if x is None:
+            return None
+        if isinstance(x, str):
+            return None if x.lower() == v else x
+        args = [a for a in (strip(a) for a in x["args"]) if a is not None]
+        if not args:
+            return None
+        if len(args) == 1 and (x["op"] != "ONEOF" or len(x["args"]) > 1):
+            return args[0]
+        return {"op": x["op"], "args": args}
+    d = copy.deepcopy(sd)
+    d["entities"] = [e for e in d["entities"] if e["name"].lower() != v]
+    for e in d["entities"]:
+        e["supers"] = [s for s in e["supers"] if s.lower() != v]
+        e["superexpr"] = strip(e["superexpr"])
+    names = set(e["name"].lower() for e in d["entities"])
+    for e in d["entities"]:
+        if not any(e["name"].lower() in [s.lower() for s in o["supers"]] for o in d["entities"]):
+            e["superexpr"] = None
+    return d
+
+
+def minimise_graph(lib, f, root):
+    """Greedy: drop entities outside the failing subset (and finally all attributes) while the same kind of failure
+    persists for the same subset. Each step rebuilds the library. Returns (lib, payload) of the smallest reproduction."""
+    if not f.get("mask") or f["min"]["masks"] is None:
+        return lib, f
+    import copy
+    sd = lib["schema"]
+    names = expmodel.Schema(sd).order
+    S = [n for n in members_of(names, f["mask"])]
+    cur_lib, cur_f = lib, f
+    step = 0
+    cands = [n for n in reversed(names) if n not in S] + ["@attrs"]
+    for victim in cands:
+        sd0 = cur_lib["schema"]
+        if victim == "@attrs":
+            d = copy.deepcopy(sd0)
+            for e in d["entities"]:
+                e["attrs"] = []
+        else:
+            d = _drop_entity(sd0, victim)
+        try:
+            verd, dis = verdicts(d)
+        except ValueError:
+            continue
+        if dis:
+            continue
+        order = expmodel.Schema(d).order
+        mask = sum(1 << order.index(n) for n in S)
+        step += 1
+        l2 = farm._build_one((900 + step, d, root, "plain", ("p21drv",), None))
+        if not l2["ok"]:
+            continue
+        f2 = dict(cur_f)
+        f2["mask"] = mask
+        wd = os.path.join(l2["dir"], "confirm")
+        os.makedirs(wd, exist_ok=True)
+        if confirm(l2, f2, wd) and f2["min"]["masks"] is not None:
+            cur_lib, cur_f = l2, f2
+    return cur_lib, cur_f
+
+
 def confirm(lib, f, wd):
     m = minimal_case(lib, f, wd)
     if m is None:
         return False
-    f["min"] = {"texts": m["texts"], "masks": m["masks"], "model": {str(k): v for k, v in m["model"].items()}}
+    f["min"] = {"texts": m["texts"], "masks": m["masks"], "model": {str(k): v for k, v in m["model"].items()},
+                "fails": [{"kind": x["kind"], "what": x["what"]} for x in m["fails"] if x["kind"] == f["kind"]][:3]}
     return True
 
 
@@ -452,12 +522,12 @@ def replay_files(f):
 # ---- runner ---------------------------------------------------------------------------------------------------------------------
 
 def draw_graphs(tier, seed, ev):
-    n_rand = 30 if tier == "quick" else 266
+    n_rand = 44 if tier == "quick" else 266
     graphs = farm.draw_schemas(common.sub_seed(seed, PROP, "graphs"), n_rand + 6, strategy=c08gen.graphs())[:n_rand]
     shapes = c08gen.shapes()
     if tier == "quick":
         rnd = random.Random(common.sub_seed(seed, PROP, "shape-pick"))
-        pick = rnd.sample(range(len(shapes)), 6)
+        pick = rnd.sample(range(len(shapes)), 8)
     else:
         pick = range(len(shapes))
     for i in pick:
@@ -519,6 +589,7 @@ def main(tier, seed):
     results = common.pmap(common.guarded(worker), good)
     rc = 0
     seen_sigs = set()
+    n_minimised = 0
     for l, (status, res) in zip(good, results):
         if status != "ok":
             print("machinery error in worker for graph %d:\n%s" % (l["idx"], res))
@@ -532,6 +603,10 @@ def main(tier, seed):
         os.makedirs(wd, exist_ok=True)
         ok = all(confirm(l, f, wd) for _k in range(3))
         if ok:
+            if n_minimised < 4:
+                n_minimised += 1
+                l, f = minimise_graph(l, f, root)
+                f["what"] = "; ".join(x["what"] for x in f["min"].get("fails", [])[:2]) or f["what"]
             files = {"schema.exp": open(l["exp"]).read(), "schema.json": json.dumps(l["schema"])}
             files.update(replay_files(f))
             d = common.save_replay(PROP, files, {"property": PROP, "what": f.get("what"), "sig": f.get("sig"), "seed": seed,
